@@ -38,6 +38,10 @@ def _is_lock(cm):
     return hasattr(cm, "acquire") and hasattr(cm, "release")
 
 
+def _is_event(cm):
+    return hasattr(cm, "is_set") and hasattr(cm, "wait") and hasattr(cm, "set")
+
+
 def _reentrant(cm):
     return "RLock" in type(cm).__name__
 
@@ -124,10 +128,28 @@ class _Rewriter:
             st.orelse = self.block(st.orelse)
             st.finalbody = self.block(st.finalbody)
             return [st]
+        if isinstance(st, ast.While) and not st.orelse:
+            # hand-over point before every evaluation of the loop test
+            test = ast.If(ast.UnaryOp(ast.Not(), st.test), [ast.Break()], [])
+            st.body = [self._yield(st), ast.copy_location(test, st)] + self.block(st.body)
+            st.test = ast.Constant(True)
+            return [st]
         if isinstance(st, (ast.For, ast.While)):
             st.body = self.block(st.body)
             st.orelse = self.block(st.orelse)
             return [self._yield(st), st]
+        if isinstance(st, ast.Expr) and isinstance(st.value, ast.Call) and isinstance(st.value.func, ast.Attribute) \
+                and st.value.func.attr == "wait" and not st.value.args and not st.value.keywords:
+            # <event>.wait() as a statement of its own: the thread is resumed only while the (real) event is set
+            self.n += 1
+            var = "_stmt_cm%d" % self.n
+            name = ast.Name(var, ast.Load())
+            return [
+                ast.Assign([ast.Name(var, ast.Store())], st.value.func.value),
+                ast.If(ast.Call(ast.Name("_stmt_is_event", ast.Load()), [name], []),
+                       [self._yield(st, "wait", name)], [self._yield(st)]),
+                ast.Expr(ast.Call(ast.Attribute(name, "wait", ast.Load()), [], [])),
+            ]
         if isinstance(st, ast.If):
             st.body = self.block(st.body)
             st.orelse = self.block(st.orelse)
@@ -189,7 +211,8 @@ def steps(fn):
         a.annotation = None
     ast.fix_missing_locations(tree)
     ns = dict(fn.__globals__)
-    ns.update(_stmt_acquire=_acquire, _stmt_release=_release, _stmt_is_lock=_is_lock, _stmt_lock_call=_lock_call)
+    ns.update(_stmt_acquire=_acquire, _stmt_release=_release, _stmt_is_lock=_is_lock, _stmt_lock_call=_lock_call,
+              _stmt_is_event=_is_event)
     exec(compile(tree, "<steps of %s>" % fn.__qualname__, "exec"), ns)
     return ns[fdef.name]
 
@@ -230,6 +253,8 @@ def run(calls, first, preempt_at, max_steps=400):
                 continue
             p = pending[t]
             if p[0] == "acquire" and not lock_free_for(p[2], t):
+                continue
+            if p[0] == "wait" and not p[2].is_set():
                 continue
             out.append(t)
         return out
@@ -287,7 +312,8 @@ def replay_lines(fn, calls, order, timeout=10.0):
     Returns results[t] = ("ret", v) | ("exc", e) | None (did not finish)."""
     import sys
     import threading
-    code = getattr(fn, "__func__", fn).__code__
+    fns = fn if isinstance(fn, (list, tuple)) else [fn]
+    codes = [getattr(f, "__func__", f).__code__ for f in fns]
     n = len(calls)
     expected = [[ln for t, ln in order if t == th] for th in range(n)]
     seq = [t for t, _ in order]
@@ -300,7 +326,7 @@ def replay_lines(fn, calls, order, timeout=10.0):
 
     def on_line(c, line):
         th = getattr(local, "th", None)
-        if th is None or c is not code:
+        if th is None or not any(c is x for x in codes):
             return None
         i = local.idx
         if i >= len(expected[th]) or line != expected[th][i]:
@@ -334,14 +360,18 @@ def replay_lines(fn, calls, order, timeout=10.0):
     mon.use_tool_id(tool, "verif-e3b")
     try:
         mon.register_callback(tool, mon.events.LINE, on_line)
-        mon.set_local_events(tool, code, mon.events.LINE)
+        for code in codes:
+            mon.set_local_events(tool, code, mon.events.LINE)
         threads = [threading.Thread(target=runner, args=(i,), daemon=True) for i in range(n)]
         for t in threads:
             t.start()
+        import time
+        end = time.time() + timeout
         for t in threads:
-            t.join(timeout)
+            t.join(max(0.0, end - time.time()))
     finally:
-        mon.set_local_events(tool, code, 0)
+        for code in codes:
+            mon.set_local_events(tool, code, 0)
         mon.register_callback(tool, mon.events.LINE, None)
         mon.free_tool_id(tool)
     return results
